@@ -110,6 +110,22 @@ pub struct World {
     pub node: Option<Node>,
     pub restarts: u32,
     pub critical_errors: u32,
+    pub panics: u32,
+}
+
+/// polls a future under `catch_unwind`
+struct CatchUnwind<F>(std::pin::Pin<Box<F>>);
+
+impl<F: std::future::Future> std::future::Future for CatchUnwind<F> {
+    type Output = Result<F::Output, String>;
+    fn poll(mut self: std::pin::Pin<&mut Self>, cx: &mut std::task::Context<'_>) -> std::task::Poll<Self::Output> {
+        let inner = &mut self.0;
+        match mc_core::catch(|| inner.as_mut().poll(cx)) {
+            Ok(std::task::Poll::Ready(v)) => std::task::Poll::Ready(Ok(v)),
+            Ok(std::task::Poll::Pending) => std::task::Poll::Pending,
+            Err(e) => std::task::Poll::Ready(Err(e)),
+        }
+    }
 }
 
 pub const START_BLOCK: u64 = 100;
@@ -283,7 +299,7 @@ impl World {
             }])),
         };
         let node = build_node(&config, &outside).await;
-        let w = World { dir, config, fixture: fixture.clone(), outside, node: Some(node), restarts: 0, critical_errors: 0 };
+        let w = World { dir, config, fixture: fixture.clone(), outside, node: Some(node), restarts: 0, critical_errors: 0, panics: 0 };
         w.publish_chain_stakes().await;
         w
     }
@@ -330,16 +346,24 @@ impl World {
         self.outside.scanner.add_forwards(vec![blocks(*from + 1..=*to)]);
     }
 
-    /// One cycle of the real state machine (its timing loop `run` is never used).
+    /// One cycle of the real state machine (its timing loop `run` is never used). A panic of the
+    /// node is caught: the process is gone, and (as a process supervisor would) the harness starts it
+    /// again on the same data directory.
     pub async fn tick(&mut self) -> Result<(), String> {
-        let r = self.node().machine.cycle().await;
+        let r = CatchUnwind(Box::pin(self.node().machine.cycle())).await;
         match r {
-            Ok(()) => Ok(()),
-            Err(e) => {
+            Ok(Ok(())) => Ok(()),
+            Ok(Err(e)) => {
                 if e.is_critical() {
                     self.critical_errors += 1;
                 }
                 Err(format!("{e:?}"))
+            }
+            Err(panic) => {
+                self.panics += 1;
+                let at = mc_core::last_panic_location();
+                self.restart().await;
+                Err(format!("PANIC {panic} at {at}; node restarted"))
             }
         }
     }
